@@ -231,6 +231,14 @@ def main(argv):
         tier = os.environ["VERIF_TIER"]
     cfg = CHECKS[pid]
     parts = [p for p in cfg["parts"] if (tier == "thorough" or not p.get("thorough_only"))]
+    if replay and not only_part:
+        # a replay file names the part that produced it: only that part is run
+        try:
+            rp = json.load(open(replay)).get("part")
+        except Exception:
+            rp = None
+        if rp and any(p["name"] == rp for p in cfg["parts"]):
+            parts = [p for p in cfg["parts"] if p["name"] == rp]
     if only_part:
         parts = [p for p in parts if p["name"] == only_part]
     seed = int(os.environ.get("VERIF_SEED", "0") or 0)
